@@ -289,12 +289,13 @@ Proof.
   rewrite strip_app_both, H. reflexivity.
 Qed.
 
-Lemma header_sem cmd suf :
+Lemma header_reads cmd suf :
   name_ok cmd -> forallb is_name_char (list_ascii_of_string suf) = true -> no_nl suf = true ->
-  strip "_cmd_" suf = None ->
-  line_sem cmd (append "_" (append cmd (append suf " () {"))) (Some (SFunc (append "_" (append cmd suf)))).
+  no_nl (append "_" (append cmd (append suf " () {"))) = true
+  /\ forall rest, bash_stmt (append (append "_" (append cmd (append suf " () {"))) (append nl rest))
+                  = Some (SFunc (append "_" (append cmd suf)), rest).
 Proof.
-  intros Hc Hsuf Hnl Hs. split; [|split].
+  intros Hc Hsuf Hnl. split.
   - cbn [append no_nl]. rewrite !no_nl_app, (name_ok_no_nl _ Hc), Hnl. reflexivity.
   - intros rest. unfold bash_stmt, bz_stmt. rewrite !append_assoc.
     rewrite alt_skip by reflexivity. rewrite alt_skip by reflexivity. rewrite alt_skip by reflexivity.
@@ -310,7 +311,15 @@ Proof.
       destruct Hc as [Hne _]. destruct cmd; [congruence | reflexivity]. }
     rewrite (pbind_some _ _ _ _ _ N1). erewrite pbind_lit' by reflexivity.
     rewrite (pbind_some _ _ _ _ _ (eol_nl rest)). reflexivity.
-  - apply is_cmd_fn_suffix. exact Hs.
+Qed.
+
+Lemma header_sem cmd suf :
+  name_ok cmd -> forallb is_name_char (list_ascii_of_string suf) = true -> no_nl suf = true ->
+  strip "_cmd_" suf = None ->
+  line_sem cmd (append "_" (append cmd (append suf " () {"))) (Some (SFunc (append "_" (append cmd suf)))).
+Proof.
+  intros Hc Hsuf Hnl Hs. destruct (header_reads cmd suf Hc Hsuf Hnl) as [H1 H2].
+  split; [exact H1|]. split; [exact H2|]. apply is_cmd_fn_suffix. exact Hs.
 Qed.
 
 (** ** units: maximal pieces of the skeleton that begin and end at line boundaries *)
@@ -586,3 +595,765 @@ Proof. unit_tac command Hc Hnl idtac. Qed.
 Lemma U_main16_scans : unit_scans command U_main16 [].
 Proof. unit_tac command Hc Hnl idtac. Qed.
 End MainUnits.
+
+(** ** composing: [scans n text sts] = the scanner reads [text] (followed by anything) as [sts],
+    using [n] steps of fuel, and [text] is at least [n] characters long *)
+Definition scans (cmd : string) (n : nat) (text : string) (sts : list stmt) : Prop :=
+  (n <= String.length text)%nat
+  /\ forall k rest, scan (n + k) Bash cmd (append text rest) = sts ++ scan k Bash cmd rest.
+
+Lemma scans_nil cmd : scans cmd 0 EmptyString [].
+Proof. split; [apply Nat.le_refl | reflexivity]. Qed.
+
+Lemma scans_app cmd n1 t1 s1 n2 t2 s2 :
+  scans cmd n1 t1 s1 -> scans cmd n2 t2 s2 -> scans cmd (n1 + n2) (append t1 t2) (s1 ++ s2).
+Proof.
+  intros [L1 H1] [L2 H2]. split.
+  - rewrite length_app. lia.
+  - intros k rest. rewrite append_assoc, <- Nat.add_assoc, H1, H2, app_assoc. reflexivity.
+Qed.
+
+Lemma length_unlines_ge ls : (List.length ls <= String.length (unlines ls))%nat.
+Proof.
+  induction ls as [|l ls IH]; [apply Nat.le_refl|]. unfold unlines in *. cbn [map sconcat List.length].
+  rewrite !length_app. cbn [String.length nl]. change (String.length nl) with 1%nat. lia.
+Qed.
+
+Lemma unit_scans_scans cmd env u sts :
+  last (tpl_lines_go [] u) [Text "x"] = [] ->
+  unit_scans_env cmd env u sts -> scans cmd (List.length (region_lines u)) (render env u) sts.
+Proof.
+  intros Hl H. split; [|exact H]. rewrite (render_region env u Hl). unfold render_lines.
+  rewrite <- (map_length (render env) (region_lines u)). apply length_unlines_ge.
+Qed.
+
+(** the lines read by the lemmas of BashCodec.v ([reads_as]: the line includes its newline) *)
+Lemma reads_scans cmd lines stmts :
+  Forall2 reads_as lines stmts -> scans cmd (List.length stmts) (sconcat lines) stmts.
+Proof.
+  intros H. split; [|intros k rest; apply scan_lines; exact H].
+  induction H as [|ln st lines stmts [Hne _] _ IH]; [apply Nat.le_refl|]. cbn [sconcat List.length].
+  rewrite length_app. destruct ln; [congruence|]. cbn [String.length]. lia.
+Qed.
+
+Lemma scans_line cmd l o : line_sem cmd l o -> scans cmd 1 (append l nl) (stmts_of [o]).
+Proof.
+  intros H. split.
+  - rewrite length_app. change (String.length nl) with 1%nat. lia.
+  - intros k rest. pose proof (scan_lines_sem cmd [l] [o] (Forall2_cons _ _ H (Forall2_nil _)) k rest) as E.
+    unfold unlines in E. cbn [map sconcat] in E. rewrite QuoteRT.append_nil_r in E. exact E.
+Qed.
+
+(** ** the function of an external command: header, body, closing brace, blank line *)
+Lemma join_lines_join l : join_lines l = join nl l.
+Proof. induction l as [|x [|y l] IH]; [reflexivity | reflexivity |]. cbn [join_lines join] in *. rewrite IH. reflexivity. Qed.
+
+Definition body_ok (body : string) : Prop :=
+  forallb (fun l => negb (String.eqb l "}")) (split_nl body) = true.
+
+Lemma split_nl_no_nl s : forallb no_nl (split_nl s) = true.
+Proof.
+  induction s as [|c t IH]; [reflexivity|]. cbn [split_nl]. destruct (Ascii.eqb c nl_char) eqn:E.
+  - cbn. exact IH.
+  - destruct (split_nl t) as [|x r]; cbn in *; [rewrite E; reflexivity|].
+    apply andb_prop in IH. destruct IH as [H1 H2]. rewrite E, H1, H2. reflexivity.
+Qed.
+
+Lemma body_lines_unlines ls T :
+  forallb no_nl ls = true -> forallb (fun l => negb (String.eqb l "}")) ls = true ->
+  forall fuel, (List.length ls < fuel)%nat ->
+  body_lines fuel "}" (append (unlines ls) (append "}" (append nl T))) = Some (ls, T).
+Proof.
+  induction ls as [|l ls IH]; intros Hn Hb fuel Hf.
+  - destruct fuel; [lia|]. cbn [unlines map sconcat append body_lines].
+    change (line (String "}" (nl ++ T))) with (line ("}" ++ nl ++ T))%string. rewrite (line_app "}" T eq_refl).
+    reflexivity.
+  - destruct fuel; [cbn in Hf; lia|]. cbn [forallb] in Hn, Hb. apply andb_prop in Hn, Hb.
+    destruct Hn as [Hn1 Hn2], Hb as [Hb1 Hb2]. unfold unlines. cbn [map sconcat]. rewrite !append_assoc.
+    cbn [body_lines]. rewrite (line_app l _ Hn1). apply negb_true_iff in Hb1. rewrite Hb1.
+    destruct (l ++ nl ++ sconcat (map (fun x => x ++ nl) ls) ++ "}" ++ nl ++ T)%string eqn:E;
+      [destruct l; discriminate E|].
+    change (sconcat (map (fun x => x ++ nl) ls))%string with (unlines ls).
+    rewrite (IH Hn2 Hb2 fuel) by (cbn in Hf; lia). reflexivity.
+Qed.
+
+Lemma unlines_split body : unlines (split_nl body) = append body nl.
+Proof.
+  pose proof (join_split_nl body) as H. pose proof (split_nl_nonempty body) as Hne.
+  destruct (split_nl body) as [|x l]; [congruence|]. clear Hne. rewrite <- H. clear H.
+  revert x. induction l as [|y l IH]; intros x.
+  - unfold unlines. cbn [map sconcat join]. rewrite QuoteRT.append_nil_r. reflexivity.
+  - specialize (IH y). unfold unlines in *. cbn [map sconcat] in *. rewrite join_cons2, !append_assoc.
+    rewrite !append_assoc in IH. f_equal. f_equal. exact IH.
+Qed.
+
+Lemma is_cmd_fn_true cmd id : is_cmd_fn cmd (append "_" (append cmd (append "_cmd_" (sN id)))) = true.
+Proof.
+  unfold is_cmd_fn. rewrite <- (append_assoc "_" cmd "_cmd_"), <- (append_assoc "_" cmd (append "_cmd_" (sN id))).
+  rewrite <- (append_assoc (append "_" cmd) "_cmd_" (sN id)). rewrite strip_app.
+  pose proof (take_digits_uint (N.to_uint id) EmptyString I) as T. rewrite QuoteRT.append_nil_r in T.
+  Transparent sN. unfold sN at 1. rewrite T. fold (sN id). Opaque sN.
+  destruct (sN_nonempty id) as [c [s' E]]. rewrite E. reflexivity.
+Qed.
+
+Definition cmd_fn_text (command : string) (id : N) (body : string) : string :=
+  append (append "_" (append command (append (append "_cmd_" (sN id)) " () {")))
+         (append nl (append "    " (append body (append nl (append "}" (append nl nl)))))).
+
+Lemma blank_line_scan cmd k rest : scan (S k) Bash cmd (append nl rest) = scan k Bash cmd rest.
+Proof.
+  pose proof (scan_lines_sem cmd [EmptyString] [None]) as H.
+  assert (L : line_sem cmd EmptyString None) by (split; [reflexivity | split; [intros r; reflexivity | exact I]]).
+  specialize (H (Forall2_cons _ _ L (Forall2_nil _)) k rest). exact H.
+Qed.
+
+Lemma scan_unfold k cmd s :
+  scan (S k) Bash cmd s =
+  match s with
+  | EmptyString => []
+  | _ =>
+      match bash_stmt s with
+      | Some (SFunc n, r) =>
+          if is_cmd_fn cmd n then
+            match read_body Bash r with
+            | Some (b, r') => SFunc n :: SBody b :: SEnd :: scan k Bash cmd r'
+            | None => SFunc n :: scan k Bash cmd r
+            end
+          else SFunc n :: scan k Bash cmd r
+      | Some (st, r) => st :: scan k Bash cmd r
+      | None => let (_, r) := line s in scan k Bash cmd r
+      end
+  end.
+Proof. reflexivity. Qed.
+
+Lemma cmd_fn_scans command id body :
+  name_ok command -> body_ok body ->
+  scans command 2 (cmd_fn_text command id body)
+        [SFunc (append "_" (append command (append "_cmd_" (sN id)))); SBody body; SEnd].
+Proof.
+  intros Hc Hb. split; [unfold cmd_fn_text; rewrite !length_app; cbn [String.length]; lia|].
+  intros k rest. unfold cmd_fn_text.
+  assert (Hsuf : forallb is_name_char (list_ascii_of_string ("_cmd_" ++ sN id)%string) = true)
+    by (apply (name_chars_app "_cmd_"); [reflexivity | apply name_chars_sN]).
+  assert (Hsnl : no_nl ("_cmd_" ++ sN id)%string = true) by (rewrite no_nl_app, no_nl_sN; reflexivity).
+  destruct (header_reads command ("_cmd_" ++ sN id)%string Hc Hsuf Hsnl) as [_ Hrd].
+  set (hdr := ("_" ++ command ++ ("_cmd_" ++ sN id) ++ " () {")%string) in *.
+  set (R := ("    " ++ body ++ nl ++ "}" ++ nl ++ nl)%string).
+  rewrite (append_assoc hdr). rewrite (append_assoc nl R rest).
+  change (2 + k)%nat with (S (S k)). rewrite scan_unfold.
+  destruct (hdr ++ nl ++ R ++ rest)%string eqn:E; [destruct hdr; discriminate E|]. rewrite <- E. clear E.
+  rewrite Hrd, is_cmd_fn_true.
+  unfold read_body, R. rewrite !append_assoc. rewrite strip_app.
+  rewrite <- (append_assoc body nl), <- (unlines_split body).
+  rewrite (body_lines_unlines (split_nl body) (nl ++ rest)%string (split_nl_no_nl body) Hb).
+  - rewrite join_lines_join, join_split_nl, blank_line_scan. reflexivity.
+  - rewrite unlines_split. rewrite !length_app. pose proof (length_unlines_ge (split_nl body)) as L.
+    rewrite unlines_split, length_app in L. change (String.length nl) with 1%nat in *. lia.
+Qed.
+
+(** ** wrapper and shape functions of within-word automata *)
+Ltac tpl_norm := cbv -[append sN]; rewrite ?append_assoc, ?QuoteRT.append_nil_r; cbn [append]; reflexivity.
+
+Lemma tpl_wrapper_header command id :
+  fmtln write_subword_wrapper_fn_0 [("command", command); ("id", sN id)]
+  = append (append "_" (append command (append (append "_subword_" (sN id)) " () {"))) nl.
+Proof. tpl_norm. Qed.
+Lemma tpl_shape_wrapper_header command id :
+  fmtln write_subword_shape_wrapper_fn_0 [("command", command); ("id", sN id)]
+  = append (append "_" (append command (append (append "_subword_" (sN id)) " () {"))) nl.
+Proof. tpl_norm. Qed.
+Lemma tpl_shape_header command sid :
+  fmtln write_subword_shape_fn_0 [("command", command); ("shape_id", sN sid)]
+  = append (append "_" (append command (append (append "_subword_shape_" (sN sid)) " () {"))) nl.
+Proof. tpl_norm. Qed.
+Lemma tpl_wrapper_call command :
+  fmtln write_subword_wrapper_fn_1 [("command", command)]
+  = append (append "    _" (append command (append "_subword" (append " ""$1"" ""$2""" EmptyString)))) nl.
+Proof. tpl_norm. Qed.
+Lemma tpl_shape_call command :
+  fmtln write_subword_shape_fn_1 [("command", command)]
+  = append (append "    _" (append command (append "_subword" (append " ""$1"" ""$2""" EmptyString)))) nl.
+Proof. tpl_norm. Qed.
+Lemma tpl_shape_wrapper_call command sid :
+  fmtln write_subword_shape_wrapper_fn_1 [("command", command); ("shape_id", sN sid)]
+  = append (append "    _" (append command (append (append "_subword_shape_" (sN sid)) (append " ""$1"" ""$2""" EmptyString)))) nl.
+Proof. tpl_norm. Qed.
+Lemma tpl_close_wrapper : fmtln write_subword_wrapper_fn_2 [] = append "}" nl.
+Proof. tpl_norm. Qed.
+Lemma tpl_close_shape : fmtln write_subword_shape_fn_2 [] = append "}" nl.
+Proof. tpl_norm. Qed.
+Lemma tpl_close_shape_wrapper : fmtln write_subword_shape_wrapper_fn_2 [] = append "}" nl.
+Proof. tpl_norm. Qed.
+
+Lemma close_sem cmd : line_sem cmd "}" (Some SEnd).
+Proof. split; [reflexivity|]. split; [intros rest; reflexivity | exact I]. Qed.
+
+Lemma blank_sem cmd : line_sem cmd EmptyString None.
+Proof. split; [reflexivity|]. split; [intros rest; reflexivity | exact I]. Qed.
+
+Lemma sub_suffix_ok (pre : string) (n : N) :
+  forallb is_name_char (list_ascii_of_string pre) = true -> no_nl pre = true ->
+  forallb is_name_char (list_ascii_of_string (append pre (sN n))) = true /\ no_nl (append pre (sN n)) = true.
+Proof.
+  intros H1 H2. split; [apply name_chars_app; [exact H1 | apply name_chars_sN] | rewrite no_nl_app, H2, no_nl_sN; reflexivity].
+Qed.
+
+Definition acc_pairs (acc : list N) : list (N * N) := map (fun s => (s, 1)) acc.
+
+Transparent sN.
+Lemma kv_one (s : N) : ("[" ++ sN s ++ "]=1")%string = kv (s, 1).
+Proof. reflexivity. Qed.
+Opaque sN.
+
+Lemma write_accepting_states_line acc :
+  write_accepting_states acc = assoc_pairs_line "accepting_states" (acc_pairs acc).
+Proof.
+  unfold write_accepting_states, assoc_pairs_line, acc_pairs. rewrite map_map.
+  rewrite (map_ext _ _ kv_one).
+  generalize (join " " (map (fun x : N => kv (x, 1)) acc)). intros b. tpl_norm.
+Qed.
+
+Lemma accepting_scans cmd acc :
+  scans cmd 1 (write_accepting_states acc) [SAssoc "accepting_states" (map (fun p => (fst p, [snd p])) (acc_pairs acc))].
+Proof.
+  rewrite write_accepting_states_line.
+  pose proof (reads_scans cmd [assoc_pairs_line "accepting_states" (acc_pairs acc)]
+                [SAssoc "accepting_states" (map (fun p => (fst p, [snd p])) (acc_pairs acc))]) as H.
+  cbn [sconcat List.length] in H. rewrite QuoteRT.append_nil_r in H. apply H.
+  constructor; [|constructor]. split; [discriminate|]. split; [exact I|]. intros rest. apply bash_pairs_stmt. auto.
+Qed.
+
+Lemma literals_scans cmd t :
+  scans cmd 1 (write_literals t) [SLits "literals" (map (fun l => snd (fst l)) (t_literals t))].
+Proof.
+  rewrite write_literals_line.
+  pose proof (reads_scans cmd [literals_line (map (fun l => snd (fst l)) (t_literals t))]
+                [SLits "literals" (map (fun l => snd (fst l)) (t_literals t))]) as H.
+  cbn [sconcat List.length] in H. rewrite QuoteRT.append_nil_r in H. apply H.
+  constructor; [|constructor]. split; [discriminate|]. split; [exact I|]. intros rest.
+  apply bash_literals_stmt. apply all_admissible_bash.
+Qed.
+
+Lemma match_scans cmd t : scans cmd (List.length (match_stmts t)) (write_match_transitions t) (match_stmts t).
+Proof. rewrite write_match_transitions_lines. apply reads_scans, reads_match. Qed.
+
+Lemma completion_scans cmd t : scans cmd (List.length (completion_stmts t)) (write_completion_tables t) (completion_stmts t).
+Proof. rewrite write_completion_tables_lines. apply reads_scans, reads_completion. Qed.
+
+Definition acc_stmt (acc : list N) : stmt := SAssoc "accepting_states" (map (fun p => (fst p, [snd p])) (acc_pairs acc)).
+Definition lits_stmt (t : tables) : stmt := SLits "literals" (map (fun l => snd (fst l)) (t_literals t)).
+Definition fn_name (command suf : string) : string := append "_" (append command suf).
+
+Definition wrapper_stmts (command : string) (id : N) (t : tables) (acc : list N) : list stmt :=
+  [SFunc (fn_name command (append "_subword_" (sN id))); acc_stmt acc; lits_stmt t]
+  ++ match_stmts t ++ completion_stmts t ++ [SCall (fn_name command "_subword"); SEnd].
+
+Definition shape_fn_stmts (command : string) (sid : N) (t : tables) : list stmt :=
+  [SFunc (fn_name command (append "_subword_shape_" (sN sid)))]
+  ++ match_stmts t ++ completion_stmts t ++ [SCall (fn_name command "_subword"); SEnd].
+
+Definition shape_wrapper_stmts (command : string) (id sid : N) (t : tables) (acc : list N) : list stmt :=
+  [SFunc (fn_name command (append "_subword_" (sN id))); acc_stmt acc; lits_stmt t;
+   SCall (fn_name command (append "_subword_shape_" (sN sid))); SEnd].
+
+Section Wrappers.
+Variable command : string.
+Hypothesis Hc : name_ok command.
+
+Lemma header_scans suf :
+  forallb is_name_char (list_ascii_of_string suf) = true -> no_nl suf = true -> strip "_cmd_" suf = None ->
+  scans command 1 (append (append "_" (append command (append suf " () {"))) nl) [SFunc (fn_name command suf)].
+Proof. intros H1 H2 H3. apply (scans_line command _ _ (header_sem command suf Hc H1 H2 H3)). Qed.
+
+Lemma call_scans suf :
+  forallb is_name_char (list_ascii_of_string suf) = true -> no_nl suf = true ->
+  scans command 1 (append (append "    _" (append command (append suf (append " ""$1"" ""$2""" EmptyString)))) nl)
+        [SCall (fn_name command suf)].
+Proof. intros H1 H2. apply (scans_line command _ _ (call_sem command suf Hc H1 H2)). Qed.
+
+Lemma close_scans : scans command 1 (append "}" nl) [SEnd].
+Proof. apply (scans_line command _ _ (close_sem command)). Qed.
+
+Lemma blank_scans : scans command 1 nl [].
+Proof. apply (scans_line command _ _ (blank_sem command)). Qed.
+
+Lemma wrapper_scans id t acc :
+  exists n, scans command n (append (write_subword_wrapper_fn command id t acc) nl) (wrapper_stmts command id t acc).
+Proof.
+  destruct (sub_suffix_ok "_subword_" id eq_refl eq_refl) as [S1 S2].
+  eexists. unfold write_subword_wrapper_fn, wrapper_stmts.
+  rewrite tpl_wrapper_header, tpl_wrapper_call, tpl_close_wrapper.
+  set (A := (("_" ++ command ++ ("_subword_" ++ sN id) ++ " () {") ++ nl)%string).
+  set (F := (("    _" ++ command ++ "_subword" ++ " ""$1"" ""$2""" ++ "") ++ nl)%string).
+  set (G := ("}" ++ nl)%string).
+  rewrite !append_assoc.
+  change ([SFunc (fn_name command ("_subword_" ++ sN id)); acc_stmt acc; lits_stmt t] ++
+          match_stmts t ++ completion_stmts t ++ [SCall (fn_name command "_subword"); SEnd])
+    with ([SFunc (fn_name command ("_subword_" ++ sN id))] ++ [acc_stmt acc] ++ [lits_stmt t] ++
+          match_stmts t ++ completion_stmts t ++ [SCall (fn_name command "_subword")] ++ [SEnd] ++ []).
+  apply scans_app; [apply (header_scans _ S1 S2 eq_refl)|].
+  apply scans_app; [apply accepting_scans|].
+  apply scans_app; [apply literals_scans|].
+  apply scans_app; [apply match_scans|].
+  apply scans_app; [apply completion_scans|].
+  apply scans_app; [apply (call_scans "_subword" eq_refl eq_refl)|].
+  apply scans_app; [apply close_scans|]. apply blank_scans.
+Qed.
+
+Lemma shape_fn_scans sid t :
+  exists n, scans command n (append (write_subword_shape_fn command sid t) nl) (shape_fn_stmts command sid t).
+Proof.
+  destruct (sub_suffix_ok "_subword_shape_" sid eq_refl eq_refl) as [S1 S2].
+  eexists. unfold write_subword_shape_fn, shape_fn_stmts.
+  rewrite tpl_shape_header, tpl_shape_call, tpl_close_shape.
+  set (A := (("_" ++ command ++ ("_subword_shape_" ++ sN sid) ++ " () {") ++ nl)%string).
+  set (F := (("    _" ++ command ++ "_subword" ++ " ""$1"" ""$2""" ++ "") ++ nl)%string).
+  set (G := ("}" ++ nl)%string).
+  rewrite !append_assoc.
+  change ([SFunc (fn_name command ("_subword_shape_" ++ sN sid))] ++
+          match_stmts t ++ completion_stmts t ++ [SCall (fn_name command "_subword"); SEnd])
+    with ([SFunc (fn_name command ("_subword_shape_" ++ sN sid))] ++
+          match_stmts t ++ completion_stmts t ++ [SCall (fn_name command "_subword")] ++ [SEnd] ++ []).
+  apply scans_app; [apply (header_scans _ S1 S2 eq_refl)|].
+  apply scans_app; [apply match_scans|].
+  apply scans_app; [apply completion_scans|].
+  apply scans_app; [apply (call_scans "_subword" eq_refl eq_refl)|].
+  apply scans_app; [apply close_scans|]. apply blank_scans.
+Qed.
+
+Lemma shape_wrapper_scans id sid t acc :
+  exists n, scans command n (append (write_subword_shape_wrapper_fn command id sid t acc) nl)
+                  (shape_wrapper_stmts command id sid t acc).
+Proof.
+  destruct (sub_suffix_ok "_subword_" id eq_refl eq_refl) as [S1 S2].
+  destruct (sub_suffix_ok "_subword_shape_" sid eq_refl eq_refl) as [T1 T2].
+  eexists. unfold write_subword_shape_wrapper_fn, shape_wrapper_stmts.
+  rewrite tpl_shape_wrapper_header, tpl_shape_wrapper_call, tpl_close_shape_wrapper.
+  set (A := (("_" ++ command ++ ("_subword_" ++ sN id) ++ " () {") ++ nl)%string).
+  set (F := (("    _" ++ command ++ ("_subword_shape_" ++ sN sid) ++ " ""$1"" ""$2""" ++ "") ++ nl)%string).
+  set (G := ("}" ++ nl)%string).
+  rewrite !append_assoc.
+  change [SFunc (fn_name command ("_subword_" ++ sN id)); acc_stmt acc; lits_stmt t;
+          SCall (fn_name command ("_subword_shape_" ++ sN sid)); SEnd]
+    with ([SFunc (fn_name command ("_subword_" ++ sN id))] ++ [acc_stmt acc] ++ [lits_stmt t] ++
+          [SCall (fn_name command ("_subword_shape_" ++ sN sid))] ++ [SEnd] ++ []).
+  apply scans_app; [apply (header_scans _ S1 S2 eq_refl)|].
+  apply scans_app; [apply accepting_scans|].
+  apply scans_app; [apply literals_scans|].
+  apply scans_app; [apply (call_scans _ T1 T2)|].
+  apply scans_app; [apply close_scans|]. apply blank_scans.
+Qed.
+End Wrappers.
+
+(** ** groups of within-word automata *)
+Definition group_stmts (command : string) (a : alltables) (sid : N) (group : list N) : res (list stmt) :=
+  match group with
+  | [] => Panic "chunk_by: empty chunk"
+  | [id] =>
+      do t <- tables_of_id a id;
+      do acc <- accepting_of_id a id;
+      Ok (wrapper_stmts command id t acc)
+  | leader :: _ =>
+      do lt <- tables_of_id a leader;
+      do ws <- omap (fun id => do t <- tables_of_id a id;
+                               do acc <- accepting_of_id a id;
+                               Ok (shape_wrapper_stmts command id sid t acc)) group;
+      Ok (shape_fn_stmts command sid lt ++ List.concat ws)
+  end.
+
+Lemma obind_ok' {E A B} (x : outcome E A) (f : A -> outcome E B) b :
+  obind x f = Ok b -> exists a, x = Ok a /\ f a = Ok b.
+Proof. destruct x; cbn; intros H; try discriminate. eauto. Qed.
+
+Lemma scans_ex_app cmd t1 s1 t2 s2 :
+  (exists n, scans cmd n t1 s1) -> (exists n, scans cmd n t2 s2) -> exists n, scans cmd n (append t1 t2) (s1 ++ s2).
+Proof. intros [n1 H1] [n2 H2]. exists (n1 + n2)%nat. apply scans_app; assumption. Qed.
+
+Lemma members_scans command a sid (Hc : name_ok command) ids texts :
+  omap (fun id => do t <- tables_of_id a id; do acc <- accepting_of_id a id;
+                  Ok (append (write_subword_shape_wrapper_fn command id sid t acc) nl)) ids = Ok texts ->
+  exists stss,
+    omap (fun id => do t <- tables_of_id a id; do acc <- accepting_of_id a id;
+                    Ok (shape_wrapper_stmts command id sid t acc)) ids = Ok stss
+    /\ exists n, scans command n (sconcat texts) (List.concat stss).
+Proof.
+  revert texts. induction ids as [|id ids IH]; cbn [omap]; intros texts H.
+  - inversion H; subst. exists []. split; [reflexivity|]. exists 0%nat. apply scans_nil.
+  - apply obind_ok' in H. destruct H as [x [Hx H]]. apply obind_ok' in H. destruct H as [xs [Hxs H]].
+    inversion H; subst; clear H.
+    apply obind_ok' in Hx. destruct Hx as [t [Ht Hx]]. apply obind_ok' in Hx. destruct Hx as [acc [Hacc Hx]].
+    inversion Hx; subst; clear Hx.
+    destruct (IH _ Hxs) as [stss [Hs Hn]]. exists (shape_wrapper_stmts command id sid t acc :: stss). split.
+    + rewrite Ht. cbn [obind]. rewrite Hacc. cbn [obind]. rewrite Hs. reflexivity.
+    + cbn [sconcat List.concat]. apply scans_ex_app; [apply (shape_wrapper_scans command Hc) | exact Hn].
+Qed.
+
+Lemma group_scans command a sid group text :
+  name_ok command -> write_group command a sid group = Ok text ->
+  exists sts, group_stmts command a sid group = Ok sts /\ exists n, scans command n text sts.
+Proof.
+  intros Hc H. destruct group as [|id [|id2 rest]]; [discriminate H | |].
+  - unfold write_group in H. unfold group_stmts.
+    apply obind_ok' in H. destruct H as [t [Ht H]]. apply obind_ok' in H. destruct H as [acc [Hacc H]].
+    rewrite Ht. cbn [obind]. rewrite Hacc. cbn [obind].
+    eexists. split; [reflexivity|].
+    assert (E : (write_subword_wrapper_fn command id t acc ++ EmitBash.nl)%string = text) by congruence.
+    rewrite <- E. apply (wrapper_scans command Hc).
+  - unfold write_group in H. unfold group_stmts.
+    apply obind_ok' in H. destruct H as [lt [Hlt H]]. apply obind_ok' in H. destruct H as [ws [Hws H]].
+    rewrite Hlt. cbn [obind].
+    destruct (members_scans command a sid Hc _ _ Hws) as [stss [Hs Hn]]. rewrite Hs. cbn [obind].
+    eexists. split; [reflexivity|].
+    assert (E : (write_subword_shape_fn command sid lt ++ EmitBash.nl ++ sconcat ws)%string = text) by congruence.
+    rewrite <- E. rewrite <- (append_assoc (write_subword_shape_fn command sid lt)).
+    apply scans_ex_app; [apply (shape_fn_scans command Hc) | exact Hn].
+Qed.
+
+Lemma groups_scans command a (Hc : name_ok command) igs texts :
+  omap (fun ig : N * list N => write_group command a (fst ig) (snd ig)) igs = Ok texts ->
+  exists stss, omap (fun ig : N * list N => group_stmts command a (fst ig) (snd ig)) igs = Ok stss
+               /\ exists n, scans command n (sconcat texts) (List.concat stss).
+Proof.
+  revert texts. induction igs as [|ig igs IH]; cbn [omap]; intros texts H.
+  - inversion H; subst. exists []. split; [reflexivity|]. exists 0%nat. apply scans_nil.
+  - apply obind_ok' in H. destruct H as [x [Hx H]]. apply obind_ok' in H. destruct H as [xs [Hxs H]].
+    inversion H; subst; clear H.
+    destruct (group_scans _ _ _ _ _ Hc Hx) as [sts [Hs Hn]]. destruct (IH _ Hxs) as [stss [Hss Hnn]].
+    exists (sts :: stss). split; [rewrite Hs; cbn [obind]; rewrite Hss; reflexivity|].
+    cbn [sconcat List.concat]. apply scans_ex_app; assumption.
+Qed.
+
+(** ** the whole script *)
+Definition sub_fn_stmts (command : string) : list stmt :=
+  [ SFunc (fn_name command "_subword"); SScalar "subword_state" 0; SScalar "char_index" 0; SScalar "matched" 0;
+    SLits "subword_candidates" []; SLits "subword_matches" []; SEnd ].
+
+Definition cmd_fns_stmts (command : string) (ics : list (N * string)) : list stmt :=
+  flat_map (fun ic => [SFunc (fn_name command (append "_cmd_" (sN (fst ic)))); SBody (cmd_body (snd ic)); SEnd]) ics.
+
+Definition subtrans_rows (a : alltables) : res (list (N * list (N * N))) :=
+  omap (fun row : N * list (N * N) =>
+          do kvs <- omap (fun pt : N * N => do id <- script_id a (fst pt); Ok (id, snd pt)) (snd row);
+          Ok (fst row, kvs)) (a_subtrans a).
+
+Definition script_stmts (command : string) (start : N) (nd : needs) (a : alltables) (groups : list (list N))
+  : res (list stmt) :=
+  let main := a_main a in
+  do gs <- (if n_subwords nd then
+              do l <- omap (fun ig : N * list N => group_stmts command a (fst ig) (snd ig)) (number_from 0 groups);
+              Ok (List.concat l ++ sub_fn_stmts command)
+            else Ok []);
+  do st <- (if n_subwords nd then
+              do rows <- subtrans_rows a;
+              Ok (SDecl "subword_transitions" :: row_stmts "subword_transitions" rows)
+            else Ok []);
+  Ok (cmd_fns_stmts command (number_from 0 (a_commands a)) ++ gs
+      ++ [SFunc (append "_" command); lits_stmt main] ++ match_stmts main ++ st
+      ++ [SScalar "state" start; SScalar "word_index" 1]
+      ++ completion_stmts main
+      ++ (if n_subwords nd then level_stmts "subword_transitions_level_" (a_csub a) else [])
+      ++ [SLits "candidates" []; SLits "matches" []; SScalar "max_fallback_level" (t_maxlevel main);
+          SEnd; SRegister [append "_" command; command]]).
+
+Lemma tpl_cmd_fn command id body :
+  fmtln write_completion_script_1 (("id", sN id) :: ("cmd", body) :: env_cmd command) = cmd_fn_text command id body.
+Proof. unfold cmd_fn_text. tpl_norm. Qed.
+
+Lemma cmd_fns_scans command (Hc : name_ok command) ics :
+  Forall (fun ic => body_ok (cmd_body (snd ic))) ics ->
+  exists n, scans command n
+    (sconcat (map (fun ic : N * string => fmtln write_completion_script_1
+                                            (("id", sN (fst ic)) :: ("cmd", cmd_body (snd ic)) :: env_cmd command)) ics))
+    (cmd_fns_stmts command ics).
+Proof.
+  induction 1 as [|ic ics Hb _ IH]; [exists 0%nat; apply scans_nil|].
+  cbn [map sconcat cmd_fns_stmts flat_map]. rewrite tpl_cmd_fn.
+  apply scans_ex_app; [exists 2%nat; apply (cmd_fn_scans command (fst ic) _ Hc Hb) | exact IH].
+Qed.
+
+Lemma scans_if cmd (b : bool) t s :
+  (exists n, scans cmd n t s) ->
+  exists n, scans cmd n (if b then t else EmptyString) (if b then s else []).
+Proof. destruct b; [auto | intros _; exists 0%nat; apply scans_nil]. Qed.
+
+Lemma unit_ex cmd env u sts :
+  last (tpl_lines_go [] u) [Text "x"] = [] -> unit_scans_env cmd env u sts -> exists n, scans cmd n (render env u) sts.
+Proof. intros Hl H. eexists. apply (unit_scans_scans cmd env u sts Hl H). Qed.
+
+Lemma subtrans_text a rows_text :
+  omap (fun row : N * list (N * N) =>
+          do kvs <- omap (fun pt : N * N => do id <- script_id a (fst pt); Ok (kv (id, snd pt))) (snd row);
+          Ok (fmtln write_completion_script_5 [("state", sN (fst row)); ("state_transitions", join " " kvs)]))
+       (a_subtrans a) = Ok rows_text ->
+  exists rows, subtrans_rows a = Ok rows
+    /\ rows_text = map (fun row : N * list (N * N) =>
+                          fmtln write_completion_script_5
+                            [("state", sN (fst row)); ("state_transitions", join " " (map kv (snd row)))]) rows.
+Proof.
+  unfold subtrans_rows. generalize (a_subtrans a). intros l. revert rows_text.
+  induction l as [|row l IH]; cbn [omap]; intros rows_text H.
+  - injection H as <-. exists []. split; reflexivity.
+  - apply obind_ok' in H. destruct H as [x [Hx H]]. apply obind_ok' in H. destruct H as [xs [Hxs H]].
+    assert (E : x :: xs = rows_text) by congruence. subst rows_text. clear H.
+    apply obind_ok' in Hx. destruct Hx as [kvs [Hkvs Hx]].
+    assert (Ex : fmtln write_completion_script_5 [("state", sN (fst row)); ("state_transitions", join " " kvs)] = x) by congruence.
+    subst x. clear Hx.
+    assert (K : exists pairs, omap (fun pt : N * N => do id <- script_id a (fst pt); Ok (id, snd pt)) (snd row) = Ok pairs
+                              /\ kvs = map kv pairs).
+    { clear -Hkvs. revert kvs Hkvs. generalize (snd row). intros pts. induction pts as [|pt pts IHp]; cbn [omap]; intros kvs H.
+      - injection H as <-. exists []. split; reflexivity.
+      - apply obind_ok' in H. destruct H as [y [Hy H]]. apply obind_ok' in H. destruct H as [ys [Hys H]].
+        assert (E : y :: ys = kvs) by congruence. subst kvs.
+        apply obind_ok' in Hy. destruct Hy as [id [Hid Hy]]. assert (Ey : kv (id, snd pt) = y) by congruence. subst y.
+        destruct (IHp _ Hys) as [pairs [Hp ->]]. exists ((id, snd pt) :: pairs). split; [|reflexivity].
+        rewrite Hid. cbn [obind]. rewrite Hp. reflexivity. }
+    destruct K as [pairs [Hp ->]]. destruct (IH _ Hxs) as [rows [Hr ->]].
+    exists ((fst row, pairs) :: rows). split; [|reflexivity]. rewrite Hp. cbn [obind]. rewrite Hr. reflexivity.
+Qed.
+
+(** the within-word matcher as a chain of units *)
+Lemma last_line_ok u : last (tpl_lines_go [] u) [Text "x"] = [] -> True. Proof. exact (fun _ => I). Qed.
+
+Ltac unit_of L cmd Hc :=
+  first [refine (unit_ex _ _ _ _ _ (L cmd Hc)) | refine (unit_ex _ _ _ _ _ (L cmd))]; vm_compute; reflexivity.
+Ltac unit_of1 H := refine (unit_ex _ _ _ _ _ H); vm_compute; reflexivity.
+
+Lemma sub_fn_scans command (Hc : name_ok command) nc ns :
+  exists n, scans command n (write_subword_fn command nc ns) (sub_fn_stmts command).
+Proof.
+  assert (T : write_subword_fn command nc ns
+              = (render (env_cmd command) U_sub0
+                 ++ (if nc then render (env_cmd command) write_subword_fn_1 else EmptyString)
+                 ++ (if ns then render (env_cmd command) write_subword_fn_2 else EmptyString)
+                 ++ render (env_cmd command) write_subword_fn_3
+                 ++ render (env_cmd command) write_subword_fn_4
+                 ++ render (env_cmd command) write_subword_fn_5
+                 ++ (if nc then render (env_cmd command) U_sub6 else EmptyString)
+                 ++ render (env_cmd command) U_sub78)%string).
+  { unfold write_subword_fn, U_sub0, U_sub6, U_sub78, fmtln, fmt, seg_nl, env_cmd. cbn [sconcat].
+    rewrite !render_app. cbn [render]. destruct nc, ns; rewrite ?QuoteRT.append_nil_r, ?append_assoc; reflexivity. }
+  rewrite T. clear T.
+  assert (S : sub_fn_stmts command
+              = [SFunc (fn_name command "_subword"); SScalar "subword_state" 0; SScalar "char_index" 0; SScalar "matched" 0]
+                ++ (if nc then [] else []) ++ (if ns then [] else []) ++ [] ++ []
+                ++ [SLits "subword_candidates" []; SLits "subword_matches" []]
+                ++ (if nc then [] else []) ++ [SEnd]) by (destruct nc, ns; reflexivity).
+  rewrite S. clear S.
+  apply scans_ex_app; [unit_of U_sub0_scans command Hc|].
+  apply scans_ex_app; [apply scans_if; unit_of U_sub1_scans command Hc|].
+  apply scans_ex_app; [apply scans_if; unit_of U_sub2_scans command Hc|].
+  apply scans_ex_app; [unit_of U_sub3_scans command Hc|].
+  apply scans_ex_app; [unit_of U_sub4_scans command Hc|].
+  apply scans_ex_app; [unit_of U_sub5_scans command Hc|].
+  apply scans_ex_app; [apply scans_if; unit_of U_sub6_scans command Hc|].
+  unit_of U_sub78_scans command Hc.
+Qed.
+
+(** the completion function as a chain of units and data sections *)
+Lemma tail14 env : render env write_completion_script_14 = append nl (render env (drop_nl write_completion_script_14)).
+Proof. reflexivity. Qed.
+Lemma tail15 env : render env write_completion_script_15 = append nl (render env (drop_nl write_completion_script_15)).
+Proof. reflexivity. Qed.
+Lemma tail16 env : render env write_completion_script_16 = append nl (render env (drop_nl write_completion_script_16)).
+Proof. reflexivity. Qed.
+
+Lemma tail_text command m (nsub ntc : bool) :
+  (fmt write_completion_script_13 (env_max command m)
+   ++ (if nsub then fmt write_completion_script_14 (env_cmd command) else EmptyString)
+   ++ (if ntc then fmt write_completion_script_15 (env_cmd command) else EmptyString)
+   ++ fmt write_completion_script_16 (env_cmd command)
+   ++ fmt write_completion_script_17 (env_cmd command))%string
+  = (render (env_max command m) U_main13
+     ++ (if nsub then render (env_cmd command) U_main14 else EmptyString)
+     ++ (if ntc then render (env_cmd command) U_main15 else EmptyString)
+     ++ render (env_cmd command) U_main16
+     ++ render (env_cmd command) U_main17)%string.
+Proof.
+  unfold fmt, U_main13, U_main14, U_main15, U_main16, U_main17, seg_nl.
+  rewrite tail14, tail15, tail16, !render_app. cbn [render].
+  destruct nsub, ntc; rewrite ?QuoteRT.append_nil_r, ?append_assoc; reflexivity.
+Qed.
+
+Lemma main_a_text command :
+  (fmt write_completion_script_2 (env_cmd command) ++ fmtln write_completion_script_3 (env_cmd command))%string
+  = render (env_cmd command) U_main_a.
+Proof.
+  unfold fmt, fmtln, U_main_a, seg_nl. rewrite !render_app. cbn [render].
+  rewrite ?QuoteRT.append_nil_r, ?append_assoc. reflexivity.
+Qed.
+
+Lemma decl_subtrans_scans cmd :
+  scans cmd 1 (fmtln write_completion_script_4 []) [SDecl "subword_transitions"].
+Proof.
+  assert (E : fmtln write_completion_script_4 [] = append "    local -A subword_transitions" nl) by tpl_norm.
+  rewrite E. apply (scans_line cmd "    local -A subword_transitions" (Some (SDecl "subword_transitions"))).
+  split; [reflexivity|]. split; [intros rest; reflexivity | exact I].
+Qed.
+
+Lemma sig_scans cmd sig : no_nl sig = true -> scans cmd 1 (append "# " (append sig EmitBash.nl)) [].
+Proof.
+  intros H. rewrite <- append_assoc. apply (scans_line cmd (append "# " sig) None). apply hash_sem. exact H.
+Qed.
+
+Lemma scan_empty k cmd : scan k Bash cmd EmptyString = [].
+Proof. destruct k; reflexivity. Qed.
+
+Lemma scans_read cmd n text sts : scans cmd n text sts -> read_stmts Bash cmd text = sts.
+Proof.
+  intros [Hn H]. unfold read_stmts.
+  replace (S (String.length text)) with (n + (S (String.length text) - n))%nat by lia.
+  rewrite <- (QuoteRT.append_nil_r text) at 2. rewrite H, scan_empty, app_nil_r. reflexivity.
+Qed.
+
+Ltac unit_open2 :=
+  unfold unit_scans, unit_scans_env; intros k rest;
+  rewrite render_region by (vm_compute; reflexivity);
+  match goal with |- context [render_lines ?E ?R] =>
+    replace (List.length (region_lines R)) with (List.length (render_lines E R)) by apply map_length
+  end.
+Ltac unit_lines2 :=
+  unfold render_lines;
+  match goal with |- context [region_lines ?R] => region_list R end;
+  cbn [map].
+Ltac unit_close2 :=
+  match goal with |- _ = _ ++ ?T => generalize T; intro end; vm_compute; reflexivity.
+
+Lemma U_head_scans0 command : unit_scans_env command [] U_head [].
+Proof.
+  unit_open2. erewrite scan_lines_sem.
+  2:{ unit_lines2. repeat (eapply Forall2_cons; [closed_line|]). apply Forall2_nil. }
+  unit_close2.
+Qed.
+
+Lemma rows_scans cmd (rows : list (N * list (N * N))) :
+  scans cmd (List.length (row_stmts "subword_transitions" rows))
+    (sconcat (map (fun row : N * list (N * N) =>
+                     fmtln write_completion_script_5
+                       [("state", sN (fst row)); ("state_transitions", join " " (map kv (snd row)))]) rows))
+    (row_stmts "subword_transitions" rows).
+Proof.
+  rewrite (sconcat_map_fmtln _ (fun row => row_line "subword_transitions" (fst row) (snd row)))
+    by (intros [s0 row]; apply tpl_subrow).
+  apply (reads_scans cmd (row_lines "subword_transitions" rows)). apply reads_rows. auto.
+Qed.
+
+Lemma sub_levels_scans cmd levels :
+  scans cmd (List.length (level_stmts "subword_transitions_level_" levels))
+    (write_levels write_completion_script_11 write_completion_script_12 levels)
+    (level_stmts "subword_transitions_level_" levels).
+Proof. rewrite write_levels_sub. apply reads_scans. apply reads_levels. auto. Qed.
+
+Theorem bash_script_read command sig start nd a groups s :
+  name_ok command -> no_nl sig = true ->
+  Forall (fun c => body_ok (cmd_body c)) (a_commands a) ->
+  script command sig start nd a groups = Ok s ->
+  exists sts, script_stmts command start nd a groups = Ok sts /\ read_stmts Bash command s = sts.
+Proof.
+  intros Hc Hsig Hbodies H. unfold script in H.
+  apply obind_ok' in H. destruct H as [subs_part [Hsubs H]].
+  apply obind_ok' in H. destruct H as [subtrans_part [Hst H]].
+  (* the groups and the matcher *)
+  assert (G : exists gs, (if n_subwords nd then
+                            do l <- omap (fun ig : N * list N => group_stmts command a (fst ig) (snd ig)) (number_from 0 groups);
+                            Ok (List.concat l ++ sub_fn_stmts command)
+                          else Ok []) = Ok gs /\ exists n, scans command n subs_part gs).
+  { destruct (n_subwords nd).
+    - apply obind_ok' in Hsubs. destruct Hsubs as [texts [Ht Hs]].
+      destruct (groups_scans command a Hc _ _ Ht) as [stss [Hss Hn]]. rewrite Hss. cbn [obind].
+      eexists. split; [reflexivity|].
+      assert (E : (sconcat texts ++ write_subword_fn command (n_sub_cmd nd) (n_sub_star nd))%string = subs_part) by congruence.
+      rewrite <- E. apply scans_ex_app; [exact Hn | apply (sub_fn_scans command Hc)].
+    - assert (E : EmptyString = subs_part) by congruence. rewrite <- E.
+      exists []. split; [reflexivity|]. exists 0%nat. apply scans_nil. }
+  destruct G as [gs [Hgs Hgn]].
+  (* the within-word transitions of the completion function *)
+  assert (T : exists st, (if n_subwords nd then
+                            do rows <- subtrans_rows a;
+                            Ok (SDecl "subword_transitions" :: row_stmts "subword_transitions" rows)
+                          else Ok []) = Ok st /\ exists n, scans command n subtrans_part st).
+  { destruct (n_subwords nd).
+    - apply obind_ok' in Hst. destruct Hst as [rows_text [Hr Hs]].
+      destruct (subtrans_text a rows_text Hr) as [rows [Hrows ->]]. rewrite Hrows. cbn [obind].
+      eexists. split; [reflexivity|].
+      assert (E : (fmtln write_completion_script_4 [] ++
+                   sconcat (map (fun row : N * list (N * N) =>
+                                   fmtln write_completion_script_5
+                                     [("state", sN (fst row)); ("state_transitions", join " " (map kv (snd row)))]) rows))%string
+                  = subtrans_part) by congruence.
+      rewrite <- E. change (SDecl "subword_transitions" :: row_stmts "subword_transitions" rows)
+        with ([SDecl "subword_transitions"] ++ row_stmts "subword_transitions" rows).
+      apply scans_ex_app; [exists 1%nat; apply decl_subtrans_scans | eexists; apply rows_scans].
+    - assert (E : EmptyString = subtrans_part) by congruence. rewrite <- E.
+      exists []. split; [reflexivity|]. exists 0%nat. apply scans_nil. }
+  destruct T as [st [Hst' Hstn]].
+  unfold script_stmts. rewrite Hgs. cbn [obind]. rewrite Hst'. cbn [obind]. eexists. split; [reflexivity|].
+  match type of H with Ok ?X = Ok _ => assert (E : X = s) by congruence end.
+  rewrite <- E. clear E H Hsubs Hst Hgs Hst'.
+  cut (exists n, scans command n
+         (sconcat
+            [("# " ++ sig ++ EmitBash.nl)%string; fmt write_completion_script_0 [];
+             sconcat (map (fun ic : N * string =>
+                             fmtln write_completion_script_1
+                               (("id", sN (fst ic)) :: ("cmd", cmd_body (snd ic)) :: env_cmd command))
+                          (number_from 0 (a_commands a)));
+             subs_part; fmt write_completion_script_2 (env_cmd command); fmtln write_completion_script_3 (env_cmd command);
+             write_literals (a_main a); write_match_transitions (a_main a); subtrans_part;
+             fmt write_completion_script_6 (("starting_state", sN start) :: env_cmd command);
+             (if n_subwords nd then fmt write_completion_script_7 (env_cmd command) else EmptyString);
+             (if n_top_cmd nd then fmt write_completion_script_8 (env_cmd command) else EmptyString);
+             (if n_top_star nd then fmt write_completion_script_9 (env_cmd command) else EmptyString);
+             fmt write_completion_script_10 (env_cmd command); write_completion_tables (a_main a);
+             (if n_subwords nd then write_levels write_completion_script_11 write_completion_script_12 (a_csub a) else EmptyString);
+             fmt write_completion_script_13 (("max_fallback_level", sN (t_maxlevel (a_main a))) :: env_cmd command);
+             (if n_subwords nd then fmt write_completion_script_14 (env_cmd command) else EmptyString);
+             (if n_top_cmd nd then fmt write_completion_script_15 (env_cmd command) else EmptyString);
+             fmt write_completion_script_16 (env_cmd command); fmt write_completion_script_17 (env_cmd command)])
+         (cmd_fns_stmts command (number_from 0 (a_commands a)) ++ gs ++
+          [SFunc ("_" ++ command); lits_stmt (a_main a)] ++ match_stmts (a_main a) ++ st ++
+          [SScalar "state" start; SScalar "word_index" 1] ++ completion_stmts (a_main a) ++
+          (if n_subwords nd then level_stmts "subword_transitions_level_" (a_csub a) else []) ++
+          [SLits "candidates" []; SLits "matches" []; SScalar "max_fallback_level" (t_maxlevel (a_main a)); SEnd;
+           SRegister [("_" ++ command)%string; command]])).
+  { intros [n Hn]. exact (scans_read _ _ _ _ Hn). }
+  cbn [sconcat].
+  rewrite (QuoteRT.append_nil_r (fmt write_completion_script_17 (env_cmd command))).
+  change (("max_fallback_level", sN (t_maxlevel (a_main a))) :: env_cmd command) with (env_max command (t_maxlevel (a_main a))).
+  rewrite tail_text.
+  rewrite <- (append_assoc (fmt write_completion_script_2 (env_cmd command)) (fmtln write_completion_script_3 (env_cmd command))).
+  rewrite main_a_text.
+  (* the statement list, regrouped along the text *)
+  match goal with |- exists n, scans _ n _ ?L =>
+    replace L with
+      ([] ++ [] ++ cmd_fns_stmts command (number_from 0 (a_commands a)) ++ gs ++ [SFunc ("_" ++ command)%string]
+       ++ [lits_stmt (a_main a)] ++ match_stmts (a_main a) ++ st ++ [SScalar "state" start; SScalar "word_index" 1]
+       ++ (if n_subwords nd then [] else []) ++ (if n_top_cmd nd then [] else []) ++ (if n_top_star nd then [] else [])
+       ++ [] ++ completion_stmts (a_main a)
+       ++ (if n_subwords nd then level_stmts "subword_transitions_level_" (a_csub a) else [])
+       ++ [SLits "candidates" []; SLits "matches" []; SScalar "max_fallback_level" (t_maxlevel (a_main a))]
+       ++ (if n_subwords nd then [] else []) ++ (if n_top_cmd nd then [] else []) ++ []
+       ++ [SEnd; SRegister [("_" ++ command)%string; command]])
+      by (destruct (n_subwords nd), (n_top_cmd nd), (n_top_star nd); cbn [app]; rewrite <- ?app_assoc; reflexivity)
+  end.
+  apply scans_ex_app; [exists 1%nat; apply (sig_scans command sig Hsig)|].
+  apply scans_ex_app; [unit_of1 (U_head_scans0 command)|].
+  apply scans_ex_app.
+  { apply (cmd_fns_scans command Hc). clear -Hbodies. revert Hbodies. generalize 0. generalize (a_commands a).
+    induction l as [|c l IH]; intros n0 Hb; cbn [number_from]; constructor; inversion Hb; subst; [assumption | apply IH; assumption]. }
+  apply scans_ex_app; [exact Hgn|].
+  apply scans_ex_app; [unit_of U_main_a_scans command Hc|].
+  apply scans_ex_app; [exists 1%nat; apply literals_scans|].
+  apply scans_ex_app; [eexists; apply match_scans|].
+  apply scans_ex_app; [exact Hstn|].
+  apply scans_ex_app; [unit_of1 (U_main6_scans command start)|].
+  apply scans_ex_app; [apply scans_if; unit_of U_main7_scans command Hc|].
+  apply scans_ex_app; [apply scans_if; unit_of U_main8_scans command Hc|].
+  apply scans_ex_app; [apply scans_if; unit_of U_main9_scans command Hc|].
+  apply scans_ex_app; [unit_of U_main10_scans command Hc|].
+  apply scans_ex_app; [eexists; apply completion_scans|].
+  apply scans_ex_app; [apply scans_if; eexists; apply sub_levels_scans|].
+  apply scans_ex_app; [unit_of1 (U_main13_scans command (t_maxlevel (a_main a)))|].
+  apply scans_ex_app; [apply scans_if; unit_of U_main14_scans command Hc|].
+  apply scans_ex_app; [apply scans_if; unit_of U_main15_scans command Hc|].
+  apply scans_ex_app; [unit_of U_main16_scans command Hc|].
+  unit_of U_main17_scans command Hc.
+Qed.
